@@ -65,7 +65,8 @@ def one(ctx, lb, c):
         ctx.nt((hashlib.sha1(data).hexdigest(), c['level'], c['ultra'], c['w1']))
     ctx.count('process_roundtrips')
     ctx.count('blocks_seen', nblocks)
-    ctx.sample(dict(desc, blocks=nblocks, compressed=len(r1.out)))
+    if nblocks >= 2:
+        ctx.sample(dict(desc, blocks=nblocks, compressed=len(r1.out)))
 
 
 def run(ctx):
